@@ -102,7 +102,7 @@ Value& OpDIVExpression::value(Context& ctx) const
         Integer l = *a2.integer();
         if (l == 0)
           throw RuntimeError(EXC_RT_DIVIDE_BY_ZERO);
-        Value val(Integer(*a1.integer() / l));
+        Value val(Value::wrapDiv(*a1.integer(), l));
         return LVAL2(val, a1, a2);
       }
       case Type::IMAGINARY:
